@@ -2,6 +2,7 @@
 use crate::driver::*;
 use crate::duo::{self, DuoCfg};
 use crate::peer::{self, ClientRig, Peer, RigCfg};
+use crate::refcodec::RValue;
 use crate::rframe;
 use crate::simnet::{self, CaseEnd, Fault, FaultKind, PipeCfg};
 use fe2o3_amqp::acceptor::{LinkAcceptor, LinkEndpoint, SessionAcceptor};
@@ -341,6 +342,20 @@ pub fn run_case(c: &Case) -> Result<RunInfo, String> {
                     Err(e) => errors.push(format!("{side} application task panicked: {e}")),
                 }
             }
+            // a close handshake that the peer never completed is not a clean close: when the transport
+            // failed and no complete close frame ever entered this side's inbound direction, the
+            // connection handle must not report Ok
+            if ctl.fault_fired() {
+                for (side, dir_in, opname) in [("client", 1usize, "client.close=Ok"), ("listener", 0usize, "listener.on_close=Ok")] {
+                    let got_close = match rframe::parse_stream(&ctl.bytes(dir_in)) {
+                        Ok((items, _)) => rframe::frames_of(&items).iter().any(|f| f.ftype == 0 && f.name() == "close"),
+                        Err(_) => true,
+                    };
+                    if !got_close && log.iter().any(|l| l == opname) {
+                        errors.push(format!("{side}: the connection handle reports a clean close although the transport failed before the peer's close frame arrived"));
+                    }
+                }
+            }
             if alive != 0 {
                 errors.push(format!("{alive} tasks of the connection are still alive after every handle was dropped"));
             }
@@ -384,6 +399,9 @@ pub struct PeerCase {
     /// shutting the endpoint's transport down fails (as a socket does after the peer reset it)
     #[serde(default)]
     pub shutdown_fails: bool,
+    /// the peer reports the non-terminal `received` state (unsettled) for every transfer it sees
+    #[serde(default)]
+    pub received_first: bool,
 }
 
 const COND: &str = "amqp:resource-limit-exceeded";
@@ -452,6 +470,12 @@ pub async fn run_peer_async(c: &PeerCase) -> Result<(bool, Vec<String>), String>
                 seen = seen.saturating_add(1);
                 // answer handshakes so that teardown calls can complete
                 match f.name() {
+                    "transfer" if c.received_first && !injected => {
+                        if let Some(did) = peer::as_uint(&f.field(1)) {
+                            let st = rframe::perf(&crate::spec::RECEIVED, vec![RValue::Uint(0), RValue::Ulong(0)]);
+                            peer.send_frame(my_ch, &Peer::disposition_body(true, did, None, false, Some(st)), &[]).await?;
+                        }
+                    }
                     "detach" if !is_detach => {
                         let h = peer::as_uint(&f.field(0)).unwrap_or(0);
                         let my = if h == 0 { ph } else { 9 };
@@ -663,13 +687,14 @@ fn run(ctx: &ShardCtx, rep: &mut Report) {
     for what in 0..4u8 {
         for with_error in [false, true] {
             for after in 0..10u8 {
-                for s in 0..(if ctx.tier == Tier::Quick { 4u64 } else { 32 }) {
+                for s in 0..(if ctx.tier == Tier::Quick { 8u64 } else { 64 }) {
                     let shutdown_fails = s % 2 == 1;
+                    let received_first = s % 4 >= 2;
                     k += 1;
                     if k % ctx.nshards as u64 != ctx.shard as u64 {
                         continue;
                     }
-                    let c = PeerCase { what, with_error, after_frames: after, tokio_seed: ctx.seed.wrapping_add(s / 2), shutdown_fails };
+                    let c = PeerCase { what, with_error, after_frames: after, tokio_seed: ctx.seed.wrapping_add(s / 4), shutdown_fails, received_first };
                     rep.evaluations += 1;
                     ctx.journal("peer", &serde_json::to_value(&c).unwrap());
                     match guarded(|| run_peer_case(&c)) {
